@@ -39,6 +39,17 @@ func main() {
 		os.Exit(cmdCheck(os.Args[2:]))
 	case "replay":
 		os.Exit(cmdReplay(os.Args[2:]))
+	case "keys":
+		eng, err := LoadEngine(repoDir, contractsDir, []string{os.Args[2]})
+		if err != nil {
+			fmt.Println(err)
+			os.Exit(1)
+		}
+		for k := range eng.funcsByKey {
+			if strings.Contains(k, os.Args[3]) {
+				fmt.Println(k)
+			}
+		}
 	case "parse":
 		ss := LoadSpecs(repoDir, modPath, contractsDir)
 		for _, e := range ss.Errors {
